@@ -45,6 +45,7 @@ func (c *checkCtx) abstractLemmas(names ...string) {
 			c.obs = append(c.obs, &Obligation{Name: "lemma/trunc", Func: "lemma/trunc", Kind: "lemma", Props: []string{c.prop}, Hyps: hyps, Goal: Not(ok1),
 				Hints:  []*Term{Cat(E(val1), Cat(rest1, tail)), tail},
 				Detail: "from rt, re and the existence of a run: decoding a strict prefix of a valid encoding does not succeed (format-abstract)"})
+			c.obs = append(c.obs, &Obligation{Name: "lemma/trunc/canary(hypotheses-satisfiable)", Func: "lemma/trunc", Kind: "canary", Canary: true, Hyps: hyps, Goal: False, Detail: "the hypotheses of the truncation lemma are not contradictory"})
 		case "receiver_independent":
 			u := Var("u", SSeq)
 			ok1, val1, rest1 := Var("ok1", SBool), Var("val1", SInt), Var("rest1", SSeq)
